@@ -136,6 +136,19 @@ Definition sub_of (latest : mapper) (mapped_key field_name : pystr) : subsel :=
   | e => SubMap e
   end.
 
+(* str(DoNotSerialize): what f"{mapped_key}._mapper" starts with when the field is mapped to the class
+   DoNotSerialize -- "<class 'typedpy.serialization.mappers.DoNotSerialize'>" *)
+Definition donot_repr : pystr := [60; 99; 108; 97; 115; 115; 32; 39; 116; 121; 112; 101; 100; 112; 121; 46; 115; 101; 114; 105; 97; 108; 105; 122; 97; 116; 105; 111; 110; 46; 109; 97; 112; 112; 101; 114; 115; 46; 68; 111; 78; 111; 116; 83; 101; 114; 105; 97; 108; 105; 122; 101; 39; 62].
+
+(* mapped_key of a nested entry on the deserialization side:
+   _apply_mapper(latest_mapper, field_name, previous_mapper, for_serialization, is_self=True) *)
+Definition mapped_key_of (latest : mapper) (fname : pystr) : res pystr :=
+  match apply_key latest fname with
+  | Key s => Ok s
+  | DoNot => Ok donot_repr
+  | Sub _ => Raise Unmodelled   (* key built from a dict *)
+  end.
+
 (* one iteration of the loop of add_mapper_to_aggregation(latest, previous, for_serialization)
    over previous.items(); [rec sub v] is the recursive call for a nested mapper *)
 Definition add_step (for_ser : bool) (latest : mapper) (rec : mapper -> mval -> res mval)
@@ -149,11 +162,7 @@ Definition add_step (for_ser : bool) (latest : mapper) (rec : mapper -> mval -> 
       match ends_with_suffix k with
       | None => Raise ValueError
       | Some fname =>
-          mk <- (if for_ser then Ok fname
-                 else match apply_key latest fname with
-                      | Key s => Ok s
-                      | _ => Raise Unmodelled   (* key built from a non-str *)
-                      end) ;;
+          mk <- (if for_ser then Ok fname else mapped_key_of latest fname) ;;
           match sub_of latest mk fname with
           | SubNone => Ok (alist_set acc (mk ++ suffix) v')
           | SubBad => Raise TypeError
@@ -393,55 +402,77 @@ Definition serialize (c : classdef) (override : option amap) (camelflag : bool) 
 
 (* deserialize_structure_internal / construct_fields_map / get_processed_input, keys only.
    The result holds the class's fields only (undefined keys of the input are not modelled). *)
+
+(* get_processed_input for a str-valued mapper entry (use_strict_mapping=False): the value under the
+   mapped key, else the value under the field's own name; with the mapped key *)
+Definition processed_input (dm : amap) (doc : list (pystr * dval)) (k : pystr) : res (option dval * pystr) :=
+  match alist_get dm k with
+  | Some (Key s) =>
+      Ok (match alist_get doc s with
+          | Some v => Some v
+          | None => alist_get doc k      (* non-strict fall back to the field name *)
+          end, s)
+  | None => Ok (alist_get doc k, k)
+  | Some _ => Raise TypeError            (* "mapper value must be a key ..." *)
+  end.
+
+(* construct_fields_map: mapper.get(f"{mapped_key}._mapper", mapper.get(f"{key}._mapper")) *)
+Definition deser_sub_lookup (dm : amap) (mapped_key k : pystr) : option mval :=
+  match alist_get dm (mapped_key ++ suffix) with
+  | Some x => Some x
+  | None => alist_get dm (k ++ suffix)
+  end.
+
+Definition sub_override_of (sub : option mval) : option amap :=
+  match sub with Some (Sub m) => Some m | _ => None end.
+
+(* deserialize_single_field for the field kinds of the model; [rec c' o d] deserializes a nested
+   document with class c' under the explicit mapper o *)
+Definition deser_value (rec : classdef -> option amap -> list (pystr * dval) -> res (list (pystr * ival)))
+           (fk : option (ckind * classdef)) (sub_override : option amap) (v : dval) : res ival :=
+  match fk, v with
+  | None, DScal z => Ok (IScal z)
+  | None, _ => Raise TypeError
+  | Some (KRef, c'), DDict d' => x <- rec c' sub_override d' ;; Ok (IStruct x)
+  | Some (KRef, _), _ => Raise TypeError
+  | Some (_, c'), DList l =>
+      xs <- (fix items (l : list dval) : res (list ival) :=
+               match l with
+               | [] => Ok []
+               | DDict d' :: u =>
+                   x <- rec c' sub_override d' ;;
+                   xs <- items u ;; Ok (IStruct x :: xs)
+               | _ :: _ => Raise TypeError
+               end) l ;;
+      Ok (IList xs)
+  | Some (_, _), _ => Raise ValueError
+  end.
+
+(* the loop of construct_fields_map over the class's fields *)
+Definition deser_loop (rec : classdef -> option amap -> list (pystr * dval) -> res (list (pystr * ival)))
+           (dm : amap) (doc : list (pystr * dval))
+  : list (pystr * option (ckind * classdef)) -> res (list (pystr * ival)) :=
+  fix go (fs : list (pystr * option (ckind * classdef))) : res (list (pystr * ival)) :=
+    match fs with
+    | [] => Ok []
+    | (k, fk) :: t =>
+        pin <- processed_input dm doc k ;;
+        let '(inp, mapped_key) := pin in
+        match inp with
+        | None => go t
+        | Some v =>
+            r <- deser_value rec fk (sub_override_of (deser_sub_lookup dm mapped_key k)) v ;;
+            rest <- go t ;;
+            Ok ((k, r) :: rest)
+        end
+    end.
+
 Fixpoint deser_struct (c : classdef) (override : option amap) (camelflag : bool)
          (doc : list (pystr * dval)) {struct c} : res (list (pystr * ival)) :=
   match c with
   | Class fields ms =>
       dm <- aggregate false (Class fields ms) override camelflag ;;
-      (fix go (fs : list (pystr * option (ckind * classdef))) : res (list (pystr * ival)) :=
-         match fs with
-         | [] => Ok []
-         | (k, fk) :: t =>
-             pin <- match alist_get dm k with
-                    | Some (Key s) =>
-                        Ok (match alist_get doc s with
-                            | Some v => Some v
-                            | None => alist_get doc k      (* non-strict fall back to the field name *)
-                            end, s)
-                    | None => Ok (alist_get doc k, k)
-                    | Some _ => Raise TypeError            (* "mapper value must be a key ..." *)
-                    end ;;
-             let '(inp, mapped_key) := pin in
-             match inp with
-             | None => go t
-             | Some v =>
-                 let sub := match alist_get dm (mapped_key ++ suffix) with
-                            | Some x => Some x
-                            | None => alist_get dm (k ++ suffix)
-                            end in
-                 let sub_override := match sub with Some (Sub m) => Some m | _ => None end in
-                 r <- match fk, v with
-                      | None, DScal z => Ok (IScal z)
-                      | None, _ => Raise TypeError
-                      | Some (KRef, c'), DDict d' =>
-                          x <- deser_struct c' sub_override camelflag d' ;; Ok (IStruct x)
-                      | Some (KRef, _), _ => Raise TypeError
-                      | Some (_, c'), DList l =>
-                          xs <- (fix items (l : list dval) : res (list ival) :=
-                                   match l with
-                                   | [] => Ok []
-                                   | DDict d' :: u =>
-                                       x <- deser_struct c' sub_override camelflag d' ;;
-                                       xs <- items u ;; Ok (IStruct x :: xs)
-                                   | _ :: _ => Raise TypeError
-                                   end) l ;;
-                          Ok (IList xs)
-                      | Some (_, _), _ => Raise ValueError
-                      end ;;
-                 rest <- go t ;;
-                 Ok ((k, r) :: rest)
-             end
-         end) fields
+      deser_loop (fun c' o d => deser_struct c' o camelflag d) dm doc fields
   end.
 
 (* ------------------------------------------------------------------ wrappers *)
@@ -457,7 +488,42 @@ Fixpoint wrapper_validate (fields : list pystr) (mapper_keys : list pystr) : res
 
 (* ------------------------------------------------------------------ the process-wide cache *)
 
-(* aggregated_mapper_by_class: (class id, json.dumps(override), camel flag) -> aggregated mapper *)
+(* aggregated_mapper_by_class: (class, json.dumps(override) or "", camel flag) -> aggregated mapper.
+   json.dumps keeps the insertion order of a dict, so two explicit mappers give the same key iff
+   they are the same ORDERED dict: structural equality.  A mapper holding DoNotSerialize is not
+   JSON-serialisable: the call is then not cached at all. *)
+Fixpoint mval_seqb (a b : mval) {struct a} : bool :=
+  match a, b with
+  | Key s, Key t => pystr_eqb s t
+  | DoNot, DoNot => true
+  | Sub l, Sub m =>
+      (fix all2 (l m : list (pystr * mval)) : bool :=
+         match l, m with
+         | [], [] => true
+         | (k, v) :: l', (k', w) :: m' => pystr_eqb k k' && mval_seqb v w && all2 l' m'
+         | _, _ => false
+         end) l m
+  | _, _ => false
+  end.
+
+Fixpoint has_donot (v : mval) : bool :=
+  match v with
+  | Key _ => false
+  | DoNot => true
+  | Sub l => (fix any (l : list (pystr * mval)) : bool :=
+                match l with
+                | [] => false
+                | (_, w) :: t => has_donot w || any t
+                end) l
+  end.
+
+(* `json.dumps(override_mapper) if override_mapper else ""` *)
+Definition norm_override (o : option amap) : option amap :=
+  match o with Some ((_ :: _) as d) => Some d | _ => None end.
+
+Definition cachable (o : option amap) : bool :=
+  match norm_override o with Some d => negb (has_donot (Sub d)) | None => true end.
+
 Definition cache_key := (N * option amap * bool)%type.
 Definition cache_key_eqb (a b : cache_key) : bool :=
   let '(c1, o1, f1) := a in
@@ -465,23 +531,49 @@ Definition cache_key_eqb (a b : cache_key) : bool :=
   N.eqb c1 c2 && Bool.eqb f1 f2 &&
   match o1, o2 with
   | None, None => true
-  | Some x, Some y => amap_eqb x y
+  | Some x, Some y => mval_seqb (Sub x) (Sub y)
   | _, _ => false
   end.
 
-Fixpoint cache_get (cache : list (cache_key * res amap)) (k : cache_key) : option (res amap) :=
-  match cache with
+Definition cache := list (cache_key * res amap).
+
+Fixpoint cache_get (ch : cache) (k : cache_key) : option (res amap) :=
+  match ch with
   | [] => None
   | (k', v) :: t => if cache_key_eqb k' k then Some v else cache_get t k
   end.
 
-Definition aggregate_cached (table : N -> classdef) (cache : list (cache_key * res amap))
-           (cid : N) (override : option amap) (camelflag : bool)
-  : res amap * list (cache_key * res amap) :=
-  let key := (cid, match override with Some ((_ :: _) as d) => Some d | _ => None end, camelflag) in
-  match cache_get cache key with
-  | Some r => (r, cache)
-  | None =>
-      let r := aggregate true (table cid) override camelflag in
-      (r, (key, r) :: cache)
+(* aggregate_serialization_mappers with its memo table; [key_of_req] builds the memo key, so that
+   the key the code uses (class, mapper, flag) and weaker ones can be compared *)
+Definition request := (N * option amap * bool)%type.
+
+Definition full_key (r : request) : cache_key := let '(cid, o, f) := r in (cid, norm_override o, f).
+
+Definition aggregate_cached_with (key_of_req : request -> cache_key) (table : N -> classdef) (ch : cache)
+           (r : request) : res amap * cache :=
+  let '(cid, override, camelflag) := r in
+  if cachable override then
+    match cache_get ch (key_of_req r) with
+    | Some a => (a, ch)
+    | None =>
+        let a := aggregate true (table cid) override camelflag in
+        (a, (key_of_req r, a) :: ch)
+    end
+  else (aggregate true (table cid) override camelflag, ch).
+
+Definition aggregate_cached := aggregate_cached_with full_key.
+
+(* a history of calls in one process: the answers, in order *)
+Fixpoint serve_with (key_of_req : request -> cache_key) (table : N -> classdef) (ch : cache)
+         (rs : list request) : list (res amap) :=
+  match rs with
+  | [] => []
+  | r :: t => let '(a, ch') := aggregate_cached_with key_of_req table ch r in
+              a :: serve_with key_of_req table ch' t
   end.
+
+Definition serve := serve_with full_key.
+
+(* the memo keys of two plausible simplifications: without the flag, without the explicit mapper *)
+Definition key_no_flag (r : request) : cache_key := let '(cid, o, _) := r in (cid, norm_override o, false).
+Definition key_no_override (r : request) : cache_key := let '(cid, _, f) := r in (cid, None, f).
